@@ -82,3 +82,17 @@ pub(crate) fn schedule_calls() -> u32 {
 pub(crate) fn schedule_saw() -> Option<crate::rt::thread::verif_kani::SetView> {
     unsafe { SCHEDULE_SAW }
 }
+
+impl Execution {
+    /// Probe for callers that block themselves before scheduling: `schedule` then returns `true`
+    /// (proved: c05_schedule_* clause `blocked_caller_always_switches`).
+    pub(crate) fn schedule_probe_blocked_model(&mut self) -> bool {
+        unsafe {
+            SCHEDULE_CALLS += 1;
+            SCHEDULE_SAW = Some(crate::rt::thread::verif_kani::set_view(&self.threads));
+        }
+        let a = crate::rt::thread::verif_kani::active_index(&self.threads).unwrap();
+        let t = crate::rt::thread::verif_kani::thread_at(&self.threads, a);
+        if t.is_runnable() { kani::any() } else { true }
+    }
+}
